@@ -8,12 +8,14 @@
 //   m <act>                   ordinary code performs <act> now
 //   end
 // acts: wake:<d|a|r|x|p>:<ids> detach:<d|a|r|x|p>:<id> gather:<d|a>:<ids> park parkn parkp wakep:<id> pause swap
-//       start:<id> startc:<id> spawn:<id> call:<id> join:<id> hop hopc end enter leave leavex
+//       start:<id> startc:<id> spawn:<id> call:<id> join:<id> hop hopc fwait end enter leave leavex
 //   mode x: the suspend point is held in a local and destroyed by stack unwinding (an exception leaves the block and is
 //   caught outside); leavex: the callback of install_queue_and_call ends by throwing (caught outside the call)
 //   mode p: parallel_resume(std::move(sp)) (resume.h); parkp: co_await parallel(future); wakep: resolve that future
 //   startc: async::operator(); spawn: a coroutine type whose initial_suspend is coro_queue::initial_awaiter
 //   hop: co_await thread_pool; hopc: co_await thread_pool::current()
+//   fwait: blocking future::force_wait()/force_sync() on a pending future which a resolver thread resolves once the
+//   caller's thread sleeps (the coroutine does not suspend: it stays the running one across the call)
 // Other threads. resume.h creates a std::thread per parallel resumption, thread_pool has a worker thread. The harness
 // schedules them deterministically, one thread at a time: `std::thread` inside resume.h is renamed to a recorder that
 // defers the start of the thread; the single pool worker is parked in a gate job between two jobs. Whenever ordinary
@@ -26,6 +28,10 @@
 #include <functional>
 #include <mutex>
 #include <thread>
+#include <chrono>
+#include <fstream>
+#include <unistd.h>
+#include <sys/syscall.h>
 #include <cocls/async.h>
 #include <cocls/future.h>
 #include <cocls/mutex.h>
@@ -61,7 +67,7 @@ struct verif_thread {
 
 using namespace cocls;
 
-enum Kind { WAKE, PARK, PARKN, PARKP, WAKEP, PAUSE, SWAP, START, STARTC, SPAWN, CALL, JOIN, HOP, HOPC, END, ENTER, LEAVE,
+enum Kind { WAKE, PARK, PARKN, PARKP, WAKEP, PAUSE, SWAP, START, STARTC, SPAWN, CALL, JOIN, HOP, HOPC, FWAIT, END, ENTER, LEAVE,
             LEAVEX, BAD };
 
 struct Act {
@@ -121,6 +127,7 @@ static Act parse_act(const std::string &tok) {
     else if (p.size() == 1 && k == "swap") a.k = SWAP;
     else if (p.size() == 1 && k == "hop") a.k = HOP;
     else if (p.size() == 1 && k == "hopc") a.k = HOPC;
+    else if (p.size() == 1 && k == "fwait") a.k = FWAIT;
     else if (p.size() == 1 && k == "end") a.k = END;
     else if (p.size() == 1 && k == "enter") a.k = ENTER;
     else if (p.size() == 1 && k == "leave") a.k = LEAVE;
@@ -234,6 +241,35 @@ static void run_pending() {
         --G->depth;
         if (!G->shutdown) G->evs.push_back(std::string("}") + (act ? "1" : "0"));
     }
+}
+
+// ---- blocking wait --------------------------------------------------------------------------------------------------
+// state letter of a thread of this process (R running, S sleeping, ...)
+static char thread_state(long tid) {
+    std::ifstream f("/proc/self/task/" + std::to_string(tid) + "/stat");
+    std::string line;
+    std::getline(f, line);
+    auto p = line.rfind(')');
+    return (p != std::string::npos && p + 2 < line.size()) ? line[p + 2] : '?';
+}
+
+// force_wait()/force_sync() on a pending future. The resolver is a real other thread (the caller really blocks); it
+// resolves only when it has seen the caller's thread asleep (or after a while), so the future is pending when the
+// blocking call starts and everything the call does before it blocks has happened.
+static void blocking_wait(bool sync_only) {
+    future<void> f;
+    promise<void> p = f.get_promise();
+    long tid = syscall(SYS_gettid);
+    std::thread resolver([&p, tid] {
+        int asleep = 0;
+        for (int i = 0; i < 20000 && asleep < 2; ++i) {
+            if (thread_state(tid) == 'S') ++asleep; else asleep = 0;
+            std::this_thread::sleep_for(std::chrono::microseconds(50));
+        }
+        p();
+    });
+    if (sync_only) f.force_sync(); else f.force_wait();
+    resolver.join();
 }
 
 static void resumed(int id) {
@@ -468,6 +504,10 @@ static R body_t(int id) {
                 resumed(id);
                 break;
             }
+            case FWAIT: {
+                blocking_wait(k % 2 == 1);
+                break;
+            }
             case HOPC: {
                 // current_awaiter binds a reference to *_current even outside the pool, so ask first
                 if (!thread_pool::current::is_stopped()) {
@@ -550,6 +590,8 @@ static void main_act(const Act &a) {
         --G->depth;
     } else if (a.k == WAKEP) {
         wake_parallel(a.d);
+    } else if (a.k == FWAIT) {
+        blocking_wait(false);
     } else if (a.k == START || a.k == STARTC) {
         Co &ch = G->get(a.d);
         if (!ch.spawned) {
